@@ -97,6 +97,11 @@ def roles(fn, acc):
         for a in acc:
             if acc_field(a) == "num_free" and a.kind == "rmw" and a.inst.get("rmwop") == "add":
                 r.add("release")
+    # a function that returns the buffer to the pool and (redundantly) clears a flag on the way, without touching the receive
+    # cursor, is the release operation - not a second receive
+    if "release" in r and "receive" in r and not any(acc_field(a) == "receivep" for a in acc):
+        r.discard("receive")
+        r.add("release-clears")
     if not r:
         r.add("observer")
     return r
